@@ -134,8 +134,25 @@ func c05Simplify(p *an.Prog, r *an.R) {
 	n := 0
 	// the counters: variables compared with each other in `x == y`
 	for _, l := range g.Locs(func(ast.Node) bool { return true }) {
-		inc, ok := g.Node(l).(*ast.IncDecStmt)
-		if !ok || inc.Tok.String() != "++" {
+		// x++, x += k, x = x + k
+		var inc ast.Stmt
+		switch st := g.Node(l).(type) {
+		case *ast.IncDecStmt:
+			if st.Tok.String() == "++" {
+				inc = st
+			}
+		case *ast.AssignStmt:
+			if len(st.Lhs) == 1 && len(st.Rhs) == 1 {
+				if _, isID := st.Lhs[0].(*ast.Ident); isID {
+					if st.Tok.String() == "+=" {
+						inc = st
+					} else if be, isB := ast.Unparen(st.Rhs[0]).(*ast.BinaryExpr); isB && st.Tok.String() == "=" && be.Op.String() == "+" && (sameExpr(be.X, st.Lhs[0]) || sameExpr(be.Y, st.Lhs[0])) {
+						inc = st
+					}
+				}
+			}
+		}
+		if inc == nil {
 			continue
 		}
 		n++
